@@ -43,9 +43,9 @@ CHECKS["C08"] = {
 CHECKS["C10"] = {
     "assumptions": [],
     "harnesses": [
-        {"pkg": "graphql/handler/transport", "harness": "Harness_C10_bytesReader", "reach": ["reader.seek", "reader.read"],
+        {"pkg": "graphql/handler/transport", "harness": "Harness_C10_bytesReader", "reach": ["reader.seek", "reader.read"], "thorough": {"params": {"ops": 3, "maxlen": 4}, "workers": 14, "timeout_ms": 60000},
          "what": "bytesReader Read/Seek, arbitrary 64-bit position/offset/whence, len 0..3, two operations from an arbitrary valid state"},
-        {"pkg": "graphql", "harness": "Harness_C10_AddUpload", "reach": ["upload.stored", "upload.rejected"],
+        {"pkg": "graphql", "harness": "Harness_C10_AddUpload", "reach": ["upload.stored", "upload.rejected"], "thorough": {"params": {"depth": 2, "maxseg": 3}, "workers": 14},
          "what": "RawParams.AddUpload over variables trees of depth <= 2 x paths of 1-2 segments from a 7-segment corpus"},
     ],
 }
@@ -53,9 +53,9 @@ CHECKS["C10"] = {
 CHECKS["C03"] = {
     "assumptions": ["gqlparser's parser and validator are interpreted from source (not stubbed)"],
     "harnesses": [
-        {"pkg": "graphql/executor", "harness": "Harness_C03_gates", "setup": "Setup_C03_gates", "reach": ["gates.accepted", "gates.rejected", "hooks.checked"], "workers": 8,
+        {"pkg": "graphql/executor", "harness": "Harness_C03_gates", "setup": "Setup_C03_gates", "reach": ["gates.accepted", "gates.rejected", "hooks.checked"], "workers": 8, "thorough": {"params": {"maxmut": 3}, "workers": 14, "sample_models": 60, "sample_every": 331},
          "what": "Executor.CreateOperationContext on a 12-request corpus x 0..2 parameter mutators x 0..2 context mutators (each rejecting or not, symbolic) x cache {none, cold, warm} x suggestions on/off"},
-        {"pkg": "graphql/executor", "harness": "Harness_C03_hooks", "setup": "Setup_C03_hooks", "reach": ["hooks.checked"], "workers": 4,
+        {"pkg": "graphql/executor", "harness": "Harness_C03_hooks", "setup": "Setup_C03_hooks", "reach": ["hooks.checked"], "workers": 4, "thorough": {"params": {"maxext": 4}, "workers": 12},
          "what": "processExtensions/DispatchOperation hook order for every list of 0..3 extensions over 5 hook subsets"},
         {"pkg": "graphql/executor", "harness": "Harness_C03_concurrent", "setup": "Setup_C03_concurrent", "reach": ["c03.concurrent"], "workers": 4, "race": True, "sched_confirm": True,
          "what": "two concurrent CreateOperationContext calls on one Executor x suggestions on/off x shared MapCache or none: verdicts and happens-before race check (gqlparser's validator included)"},
@@ -92,6 +92,9 @@ CHECKS["C15"] = {
         {"pkg": "graphql/handler/extension", "harness": "Harness_C15_apq", "workers": 4, "quick": {"sample_models": 200},
          "reach": ["apq.noext", "apq.hit", "apq.notfound", "apq.registered", "apq.mismatch"],
          "what": "AutomaticPersistedQuery.MutateOperationParameters: 4 cache pre-states x 3 texts x 11 extension shapes"},
+        {"pkg": "graphql/handler/extension", "harness": "Harness_C15_history", "workers": 8, "reach": ["apq.history", "apq.history.hit"],
+         "quick": {"params": {"hist": 2}, "sample_models": 300}, "thorough": {"params": {"hist": 4}, "sample_models": 400, "sample_every": 151, "workers": 14},
+         "what": "explicit histories of 2 [4] requests from an empty store over 2 texts x 2 hashes x {text, text+own hash, text+given hash, hash only}"},
     ],
 }
 
@@ -101,7 +104,7 @@ CHECKS["C07"] = {
     "harnesses": [
         {"pkg": "graphql/handler/transport", "harness": "Harness_C07_postPool", "reach": ["pool.checked"], "quick": {"sample_models": 60},
          "what": "POST.Do from an all-zero pooled RawParams: 11 bodies x 4 executor outcomes (ok, rejected, panic before/after dispatch); object back in the pool is all-zero"},
-        {"pkg": "graphql/handler/transport", "harness": "Harness_C07_postHistory", "reach": ["history.compared", "history.rejected"], "quick": {"sample_models": 100, "sample_every": 5},
+        {"pkg": "graphql/handler/transport", "harness": "Harness_C07_postHistory", "reach": ["history.compared", "history.rejected"], "quick": {"sample_models": 100, "sample_every": 5}, "thorough": {"params": {"hist": 3}, "workers": 12, "sample_models": 200, "sample_every": 101},
          "what": "two POST requests through one pool: 11 x 11 bodies x 4 outcomes of the first; parameters seen for the second equal its own content"},
     ],
 }
@@ -228,7 +231,7 @@ CHECKS["C11"] = {
     "harnesses": [
         dict(_WS, harness="Harness_C11_init", reach=["c11.init.accepted", "c11.init.refused"], quick={"sample_models": 60, "sample_every": 11},
              what="wsConnection.init: 15 first-frame kinds x 6 payloads x 4 init-function behaviours x 2 subprotocols"),
-        dict(_WS, harness="Harness_C11_subscribe", reach=["c11.sub.ran", "c11.sub.rejected"], quick={"sample_models": 40, "sample_every": 7},
+        dict(_WS, harness="Harness_C11_subscribe", reach=["c11.sub.ran", "c11.sub.rejected"], quick={"sample_models": 40, "sample_every": 7}, thorough={"params": {"maxpayloads": 3}, "sample_models": 80, "sample_every": 13},
              what="wsConnection.subscribe + its goroutine: verdict x 0..2 payloads x panic at step k x subscription error x 3 start payloads"),
         dict(_WS, harness="Harness_C11_initTimeout", reach=["c11.timeout.fired"], sched_confirm=True, quick={"sample_models": 8},
              what="wsConnection.init with InitTimeout: silent client or connection_init, the timer firing at any scheduling point: decided once, closed once, the helper goroutine ends"),
@@ -242,9 +245,9 @@ CHECKS["C12"] = {
     "assumptions": ["time.NewTicker is modelled as a daemon task that may deliver a tick at any scheduling point (at most 'ticks' times); every write to the ResponseWriter fake is an explicit preemption point in the SSE harness",
                     "payload sequences satisfy C13's hasNext contract; aggregator flush ticks are symbolic Booleans at every point between Adds (flush and Add hold the same mutex)"],
     "harnesses": [
-        dict(_WS, harness="Harness_C12_multipart", reach=["c12.multipart"], quick={"sample_models": 40, "sample_every": 3},
+        dict(_WS, harness="Harness_C12_multipart", reach=["c12.multipart"], quick={"sample_models": 40, "sample_every": 3}, thorough={"params": {"maxinc": 5}, "sample_models": 80, "sample_every": 29, "workers": 12},
              what="multipartResponseAggregator Add/flush/Done over 1 + 0..3 payloads with a symbolic flush tick at every point: independent multipart parser on the bytes"),
-        dict(_WS, harness="Harness_C12_sse", reach=["c12.sse"], race=True, sched_confirm=True, quick={"params": {"ticks": 1}, "sample_models": 10, "sample_every": 7}, thorough={"params": {"ticks": 2}},
+        dict(_WS, harness="Harness_C12_sse", reach=["c12.sse"], race=True, sched_confirm=True, quick={"params": {"ticks": 1}, "sample_models": 10, "sample_every": 7}, thorough={"params": {"ticks": 2, "maxpayloads": 3}, "workers": 12},
              what="SSE.Do with 0..2 payloads / rejected operation, keep-alive ticker firing at any scheduling point, every write a preemption point: event grammar, exactly-once, no overlapping writes, race check"),
     ],
 }
